@@ -45,8 +45,120 @@ fn parse_type(t: &str) -> Option<(bool, bool, String)> {
     Some((optional, vec, rest.to_string()))
 }
 
-/// strict line grammar; anything else is an error naming the line
+/// Structs, fields, renames and types read from the syn AST: tolerant of layout, comments and extra
+/// attributes. Used when the strict line grammar does not match, so that a harmless change of the
+/// rendering's layout does not blind (or alarm) the monitors.
+pub fn parse_rendered_syn(text: &str) -> Result<Vec<RStruct>, String> {
+    fn type_of(t: &syn::Type) -> Option<(bool, bool, String)> {
+        fn generic_arg(seg: &syn::PathSegment) -> Option<&syn::Type> {
+            if let syn::PathArguments::AngleBracketed(a) = &seg.arguments {
+                if a.args.len() == 1 {
+                    if let syn::GenericArgument::Type(t) = &a.args[0] {
+                        return Some(t);
+                    }
+                }
+            }
+            None
+        }
+        let path = match t {
+            syn::Type::Path(p) if p.qself.is_none() => &p.path,
+            _ => return None,
+        };
+        let last = path.segments.last()?;
+        let name = last.ident.to_string();
+        if name == "Option" && path.segments.len() == 1 {
+            if let Some(inner) = generic_arg(last) {
+                let (o, v, b) = type_of(inner)?;
+                if o {
+                    return None;
+                }
+                return Some((true, v, b));
+            }
+        }
+        if name == "Vec" && path.segments.len() == 1 {
+            if let Some(inner) = generic_arg(last) {
+                let (o, v, b) = type_of(inner)?;
+                if o || v {
+                    return None;
+                }
+                return Some((false, true, b));
+            }
+        }
+        if !matches!(last.arguments, syn::PathArguments::None) {
+            return None;
+        }
+        Some((false, false, path.segments.iter().map(|s| s.ident.to_string()).collect::<Vec<_>>().join("::")))
+    }
+    fn rename_of(attrs: &[syn::Attribute]) -> Option<String> {
+        let mut out = None;
+        for a in attrs {
+            if a.path().is_ident("serde") {
+                let _ = a.parse_nested_meta(|m| {
+                    if m.path.is_ident("rename") {
+                        if let Ok(v) = m.value() {
+                            if let Ok(l) = v.parse::<syn::LitStr>() {
+                                out = Some(l.value());
+                            }
+                        }
+                    } else if m.input.peek(syn::Token![=]) {
+                        let _ = m.value().and_then(|v| v.parse::<syn::Expr>());
+                    }
+                    Ok(())
+                });
+            }
+        }
+        out
+    }
+    let file = syn::parse_file(text).map_err(|e| format!("syn: {}", e))?;
+    let mut out = Vec::new();
+    for item in file.items {
+        let st = match item {
+            syn::Item::Struct(s) => s,
+            _ => return Err("non-struct item in output".into()),
+        };
+        let derive = st.attrs.iter().find(|a| a.path().is_ident("derive")).and_then(|a| match &a.meta {
+            syn::Meta::List(l) => Some(l.tokens.to_string()),
+            _ => None,
+        });
+        let mut fields = Vec::new();
+        if let syn::Fields::Named(named) = st.fields {
+            for f in named.named {
+                let ident = f.ident.as_ref().map(|i| i.to_string()).unwrap_or_default();
+                let (optional, vec, base) = type_of(&f.ty).ok_or_else(|| format!("unsupported field type of {}", ident))?;
+                fields.push(RField {
+                    ident,
+                    rename: rename_of(&f.attrs),
+                    optional,
+                    vec,
+                    base,
+                });
+            }
+        } else {
+            return Err(format!("struct {} is not a named-field struct", st.ident));
+        }
+        out.push(RStruct {
+            name: st.ident.to_string(),
+            derive,
+            fields,
+        });
+    }
+    if out.is_empty() {
+        return Err("no struct in output".into());
+    }
+    Ok(out)
+}
+
+/// strict line grammar of the renderer's current layout; falls back to the syn AST when the layout
+/// differs but the text is still a sequence of struct items
 pub fn parse_rendered(text: &str) -> Result<Vec<RStruct>, String> {
+    match parse_rendered_lines(text) {
+        Ok(s) => Ok(s),
+        Err(e) => parse_rendered_syn(text).map_err(|_| e),
+    }
+}
+
+/// strict line grammar; anything else is an error naming the line
+pub fn parse_rendered_lines(text: &str) -> Result<Vec<RStruct>, String> {
     let mut out = Vec::new();
     let lines: Vec<&str> = text.split('\n').collect();
     // the text ends with "}\n\n" -> last two split items are empty
